@@ -102,7 +102,7 @@ def run(ctx):
     ctx.guard('flush transitions', ctx.counters.get('flush_transitions', 0), 5000)
     ctx.guard('successful flushes with pending writes', ctx.counters.get('flush_ok', 0), 1000)
     ctx.cov['per_model'] = agg['per_model']
-    ctx.cov['bounds'] = 'every flush/commit/end at the end of every history of 2 (thorough: 3 for the models of the quick catalogue) arbitrary operations + the flush from every fixture'
+    ctx.cov['bounds'] = 'every flush/commit/end at the end of every history of 2 (thorough: 3 for one model per relationship kind plus casc3 and mix3) arbitrary operations + the flush from every fixture'
     ctx.assume('single session: no concurrent deletions, so a FOREIGN KEY failure can only come from statement order; SQLite enforces foreign keys immediately')
     return dict(states=agg['states'], transitions=agg['transitions'], traces_validated_against_impl=agg['executions'])
 
